@@ -7,7 +7,7 @@
    arbitrary.  A history is the list of commands of all connections in the order the server takes them up; [trace]
    lists for every command: state before (t_pre), command (t_ev), state after (t_post), answer (t_res), instant. *)
 From Coq Require Import List String NArith Bool.
-From Gluon Require Import Gen.FactsCmdClass Model.AuthGate Proofs.AuthGateProofs.
+From Gluon Require Import Gen.FactsCmdClass Model.AuthGate Proofs.AuthGateProofs Model.UserFiles Proofs.UserFilesProofs.
 Import ListNotations.
 Local Open Scope N_scope.
 
@@ -128,6 +128,49 @@ Theorem C18_jail : forall ustore hres heff creds jail stores h pre x1 x2 x3 y po
   streak pre 0 = 0 -> fst x1 = RNo -> fst x2 = RNo -> fst x3 = RNo -> snd x3 + jail <= snd y.
 Proof. exact jail_in_history. Qed.
 Print Assumptions C18_jail.
+
+(* ---- the storage side of isolation: which files belong to a user (Model/UserFiles.v) ----
+   user IDs are arbitrary byte strings (LoadUser takes any ID).  Read from the source: DeleteDB (RemoveUser with
+   removeFiles) uses no pattern but the exact names <userID><suffix>, no suffix is the tail of another one, the suffix of
+   the database file is among them, and the SQLite client deletes through DeleteDB. *)
+Theorem C18_remove_user_exact_names : remove_user_exact_names = true.
+Proof. exact remove_user_exact_names_ok. Qed.
+Print Assumptions C18_remove_user_exact_names.
+
+(* the files removed for a user are a function of that user's ID alone and disjoint from every other user's *)
+Theorem C18_removed_files_belong_to_one_user : forall u v f,
+  In f (removed_files delete_db_suffixes u) -> In f (removed_files delete_db_suffixes v) -> u = v.
+Proof. exact code_removed_files_disjoint. Qed.
+Print Assumptions C18_removed_files_belong_to_one_user.
+
+(* removing u removes u's database and leaves the database of every other user in place — whatever the two IDs are
+   (one a prefix of the other, pattern characters, ...) *)
+Theorem C18_remove_user_keeps_other_databases : forall u v, u <> v ->
+  ~ In (db_file db_file_suffix v) (removed_files delete_db_suffixes u)
+  /\ In (db_file db_file_suffix u) (removed_files delete_db_suffixes u).
+Proof. exact code_remove_keeps_other_db. Qed.
+Print Assumptions C18_remove_user_keeps_other_databases.
+
+(* the database a user's connection works on: the SQLite URI is "file:" ++ escape(path) ++ "?cache=…"; SQLite takes the
+   part before the first '?' or '#' and percent-decodes it.  With the escaping function found in the source
+   (url.PathEscape: escapes '%', '?', '#') the file that is opened is the user's own path, so different users (IDs with
+   '?', '#', '%', spaces, any byte) open different files. *)
+Theorem C18_db_uri_escape_function : db_uri_escape = "url.PathEscape"%string.
+Proof. exact code_db_uri_escape. Qed.
+Print Assumptions C18_db_uri_escape_function.
+
+Theorem C18_database_file_per_user : forall u v query,
+  Forall (fun b => b < 256) u -> Forall (fun b => b < 256) v ->
+  opened_file go_path_escape_keep (db_file db_file_suffix u) query
+  = opened_file go_path_escape_keep (db_file db_file_suffix v) query -> u = v.
+Proof. exact code_db_file_of_user. Qed.
+Print Assumptions C18_database_file_per_user.
+
+(* an escaping that only takes care of '#' lets two paths open one file ("a?1.db", "a?2.db") *)
+Theorem C18_database_file_per_user_hash_only_refuted :
+  exists p1 p2 q, p1 <> p2 /\ opened_file hash_only_keep p1 q = opened_file hash_only_keep p2 q.
+Proof. exact hash_only_collides. Qed.
+Print Assumptions C18_database_file_per_user_hash_only_refuted.
 
 (* non-vacuity: users 1 (names 10, 11; password 100) and 2 (name 20; password 200), jail time 50.
    Connection 7: FETCH before login -> NO; wrong password, other user's password, unknown name -> three NO, the third
